@@ -25,7 +25,10 @@ RULE = ("table = packed structured dtype of 1-5 fields (binary: i1..u8,f4,f8,boo
         "Recfile[cols].read(rows=) / Recfile.get_subset / recfile.read / Recfile[rows] / Recfile[cols][rows] / "
         "SFile[rows] / SFile[cols][rows] / SFile.read / sfile.read / io.read, with split=, reduce=, header=, "
         "nrows given or counted, handle mode r or r+. Thorough tier enumerates every slice for n=1..6 on a fixed "
-        "3-field table through all bracket styles, binary and text. "
+        "3-field table through all bracket styles, binary and text. Sub-check sequence: 2-6 selections read one after "
+        "the other through one open Recfile/SFile handle that never read the whole file (1 in 3 starts with a block "
+        "of rows without the last column followed by a read that starts where the block ended); two thirds of the "
+        "text tables keep their string cells as drawn (leading/trailing blanks, delimiter characters). "
         "Non-trivial: the selection is a proper subset or a re-ordering of rows or columns, or has a repeat, a "
         "negative scalar, a negative / out-of-range / empty slice bound, or uses split/reduce, or is a rejected "
         "row list. Distinct = distinct case JSON."
@@ -166,6 +169,10 @@ def _table(draw):
     delim = draw(st.sampled_from(DELIMS))
     t = draw(T.tables(kind="binary" if delim is None else "text", max_fields=5, max_rows=12, big_rows=300,
                         allow_mixed_order=True, sizes=True))
+    if delim is not None and draw(st.integers(0, 2)) > 0:
+        # string cells as drawn (printable ASCII incl. leading/trailing blanks, delimiter characters, quotes);
+        # otherwise they are mapped to letters and digits
+        t["rawstr"] = True
     return delim, t
 
 
@@ -246,6 +253,102 @@ def reject_cases(draw):
             "nrows_given": draw(st.booleans()), "mode": "r", "reject": True}
 
 
+@st.composite
+def sequence_cases(draw):
+    """Several selections read one after the other through ONE open handle that never read the whole file:
+    whatever the handle remembers from one read (file position, buffers, cached rows) must not leak into the next."""
+    delim, t = draw(_table())
+    n = t["nrows"]
+    names = _names(t)
+    steps = []
+    if n >= 4 and draw(st.integers(0, 2)) == 0:
+        # a block of leading rows without the last column(s), then a read that starts where the block ended
+        b = draw(st.integers(1, n - 2))
+        a = draw(st.integers(0, b - 1))
+        m = draw(st.integers(1, max(1, len(names) - 1)))
+        steps.append({"rows": {"k": "list", "v": list(range(a, b + 1))}, "cols": {"k": "list", "v": names[:m]},
+                      "how": draw(st.sampled_from(["read", "bracket"]))})
+        c = draw(st.integers(b, min(n - 1, b + 2)))
+        steps.append({"rows": {"k": "list", "v": sorted(set([c] + draw(st.lists(st.integers(c, n - 1), max_size=3))))},
+                      "cols": draw(_cols(names, ["none", "name", "list"])), "how": draw(st.sampled_from(["read", "bracket"]))})
+    for _ in range(draw(st.integers(1 if steps else 2, 4))):
+        how = draw(st.sampled_from(["read", "bracket"]))
+        kinds = ["none", "scalar", "list", "list", "ndarray"] + (["slice", "slice"] if how == "bracket" else [])
+        steps.append({"rows": draw(_rows(n, kinds)), "cols": draw(_cols(names, ["none", "name", "list", "list"])),
+                      "how": how})
+    return {"table": t, "delim": delim, "steps": steps, "handle": draw(st.sampled_from(["recfile", "recfile", "sfile"])),
+            "nrows_given": draw(st.booleans()), "mode": draw(st.sampled_from(["r", "r", "r+"]))}
+
+
+def check_sequence(case, ctx):
+    from esutil import recfile, sfile
+    t = case["table"]
+    data = _data(case)
+    n = data.size
+    delim = case["delim"]
+    text = delim is not None
+    fname = ctx.tmpfile("t.rec")
+    if case["handle"] == "sfile":
+        _write_sfile(case, data, fname)
+        h = sfile.SFile(fname, case["mode"])
+    else:
+        _write_plain(case, data, fname)
+        kw = {"dtype": data.dtype}
+        if text:
+            kw["delim"] = delim
+        if case["nrows_given"]:
+            kw["nrows"] = n
+        h = recfile.Recfile(fname, case["mode"], **kw)
+    results = []
+    with h:
+        for st_ in case["steps"]:
+            rows, cols = _rows_obj(st_["rows"]), _cols_obj(st_["cols"])
+            if st_["how"] == "read":
+                res = must(h.read, rows=rows, columns=cols)
+            elif cols is None:
+                res = must(lambda: h[slice(None) if rows is None else rows])
+            else:
+                res = must(lambda: h[cols][slice(None) if rows is None else rows])
+            results.append(res)
+    # the reference table comes from a separate reader, after the sequence
+    if text:
+        rk = {"delim": delim}
+        full = must(recfile.read, fname, data.dtype, **rk) if case["handle"] != "sfile" else must(sfile.read, fname)
+        _check_full_text(full, data, "text full read")
+        ref = full
+    else:
+        ref = data
+    for i, (st_, res) in enumerate(zip(case["steps"], results)):
+        what = "%s %s, read %d of %d on one open handle (%s rows=%r cols=%r)" % (
+            "text" if text else "binary", case["handle"], i + 1, len(results), st_["how"], _rows_obj(st_["rows"]),
+            _cols_obj(st_["cols"]))
+        shape = "plain" if st_["cols"]["k"] == "name" else "struct"
+        _verify(res, ref, _expected_index(st_["rows"], n), st_, shape, what)
+
+
+def classify_sequence(case):
+    t = case["table"]
+    labs = set(x for x in T.describe(t) if not x.startswith("str-"))
+    labs.add("form:text" if case["delim"] is not None else "form:binary")
+    labs.add("handle:" + case["handle"])
+    labs.add("reads:%d" % len(case["steps"]))
+    n = t["nrows"]
+    names = _names(t)
+    prev_end = None
+    for st_ in case["steps"]:
+        idx = _expected_index(st_["rows"], n)
+        sel = _file_order(names, st_["cols"])
+        if prev_end is not None and idx.size and idx[0] > prev_end[0] and prev_end[1]:
+            labs.add("nt:read-continues-after-partial-column-read")
+        if idx.size and prev_end is not None and idx[0] <= prev_end[0]:
+            labs.add("nt:read-goes-back")
+        if idx.size:
+            prev_end = (int(idx[-1]), names[-1] not in sel)
+    if len(case["steps"]) >= 2:
+        labs.add("nt:sequence")
+    return sorted(labs)
+
+
 # exhaustive slice sub-domain ------------------------------------------------------------
 
 def _fixed_table(n):
@@ -296,7 +399,7 @@ def exhaustive_rowsets(tier):
 def _data(case):
     t = case["table"]
     a = T.build(t)
-    if case["delim"] is not None:
+    if case["delim"] is not None and not t.get("rawstr"):
         a = RT.alnum_strings(a)
     return a
 
@@ -633,6 +736,9 @@ def classify(case):
     labs.add("form:text" if case["delim"] is not None else "form:binary")
     if case["delim"] is not None:
         labs.add("delim:%r" % case["delim"])
+        labs.add("text-strings:" + ("as-drawn" if t.get("rawstr") else "alphanumeric"))
+        if t.get("rawstr") and T.base_code(t["descr"][0][1])[0] == "S":
+            labs.add("first-column-string-as-drawn")
     labs.add("style:" + case["style"])
     r, c = case["rows"], case["cols"]
     labs.add("rows:" + r["k"])
@@ -717,4 +823,5 @@ SUBCHECKS = [
     Subcheck("slices", slice_cases, check, classify, quick=900, thorough=30000,
              exhaustive=exhaustive_slices, exhaustive_tiers=("quick", "thorough")),
     Subcheck("reject", reject_cases, check, classify, quick=1200, thorough=15000),
+    Subcheck("sequence", sequence_cases, check_sequence, classify_sequence, quick=2500, thorough=40000),
 ]
